@@ -20,11 +20,20 @@ func wantOf(o outcome) string {
 	return o.Class
 }
 
+// wantFor: for `parsekey` the implementation side reports the set of delegates that explain the
+// observed result ("branches jwk,pem,"), whatever the class.
+func wantFor(line string, o outcome) string {
+	if strings.HasPrefix(line, "parsekey ") {
+		return "branches " + o.Detail
+	}
+	return wantOf(o)
+}
+
 // doM executes the implementation case (monitor included) and queues the model line.
 func (r *runner) doM(line string, c Case) outcome {
 	o := r.do(c)
 	if o.Class != clsSkip {
-		r.model = append(r.model, modelCase{Line: line, C: c, want: wantOf(o)})
+		r.model = append(r.model, modelCase{Line: line, C: c, want: wantFor(line, o)})
 	}
 	return o
 }
@@ -67,12 +76,19 @@ func (r *runner) runModel() {
 			if impl.Class == clsSkip {
 				continue
 			}
-			want = wantOf(impl)
+			want = wantFor(m.Line, impl)
 		}
 		op := strings.SplitN(m.Line, " ", 2)[0]
 		got := outs[i]
 		r.res.Traces++
 		r.res.Hit("model:" + op + ":" + strings.SplitN(got, " ", 2)[0])
+		if strings.HasPrefix(want, "branches ") {
+			// the branch the model's heuristic takes must be one that explains the real result
+			if !strings.Contains(","+strings.TrimPrefix(want, "branches "), ","+got+",") {
+				r.res.Disagree("C07-parsekey (branch chosen by the Lean model of the heuristic vs delegates that explain the implementation's result)", m, got, want)
+			}
+			continue
+		}
 		if got != want {
 			r.res.Disagree("C07-"+op+" (Lean model vs implementation, outcome class + value)", m, got, want)
 		}
